@@ -19,6 +19,7 @@ type FuncResult struct {
 	Prelude       string // SMT text shared by every obligation of this function
 	Err           string // engine failure
 	Trusted       []string
+	Relies        []string // workspace keys of the repository contracts and lemmas this function's proof used at call sites
 	Unmodelled    []string
 	Assumes       []string
 	Inlined       []string
@@ -34,7 +35,7 @@ type FuncResult struct {
 }
 
 func (w *Workspace) newGen(fn *ssa.Function, ct *Contract) *Gen {
-	g := &Gen{w: w, sorts: newSorts(), top: fn, contract: ct, declared: map[string]bool{}, trusted: map[string]bool{}, unmod: map[string]bool{},
+	g := &Gen{w: w, sorts: newSorts(), top: fn, contract: ct, declared: map[string]bool{}, trusted: map[string]bool{}, relied: map[string]bool{}, unmod: map[string]bool{},
 		assumes: map[string]bool{}, inlined: map[string]bool{}, globals: map[*ssa.Global]*Cell{}, uses: map[string]bool{}, ufDecl: map[string]string{}, arrElems: map[string]map[string]Val{}, worldSeen: map[string]bool{}, hashState: map[string]*Cell{}}
 	g.entry = &State{cells: map[*Cell]Val{}, heaps: map[string]string{}}
 	g.concrete = ct != nil && ct.Concrete
@@ -135,6 +136,7 @@ func (w *Workspace) verifyFunction(key string, ct *Contract) (res *FuncResult) {
 		res.StrLits[k] = v
 	}
 	res.Trusted = keys(g.trusted)
+	res.Relies = keys(g.relied)
 	res.Unmodelled = keys(g.unmod)
 	res.Assumes = keys(g.assumes)
 	res.Inlined = keys(g.inlined)
@@ -687,5 +689,6 @@ func (g *Gen) applyLemma(ct *Contract, spec string, env *Env) {
 		post = append(post, inst.trBool(e.Expr))
 	}
 	g.assume(implies(and(pre...), and(post...)))
+	g.relied[ct.PkgPath+"::"+name] = true
 	g.assumes["lemma instance used: "+name+" (discharged as its own obligations)"] = true
 }
